@@ -111,11 +111,11 @@ def run(prog, rep, tier):
                   "%s passes the wrong quantity: %s" % (name, "; ".join(why)))
         rep.check("RESULT." + name, res == c.result, fwhere(f, c.node), "the closure returns the draw unchanged", "the closure returns %s" % fmt(res)[:80])
         dv = {p: (f.defaults[p].value if p in f.defaults and isinstance(f.defaults[p], ast.Constant) else None) for p in defaults}
-        rep.check("DEFAULTS." + name, dv == defaults and f.params == list(defaults), fwhere(f), "signature %s%s" % (name, tuple(defaults.items())),
+        rep.check("DEFAULTS." + name, dv == defaults and f.params[:len(defaults)] == list(defaults) and all(p_ in f.defaults for p_ in f.params[len(defaults):]), fwhere(f), "signature %s%s" % (name, tuple(defaults.items())),
                   "signature/defaults are %s" % dv)
     S, f, clo, res, facts = factory_closure(prog, NO + "zero")
     accepts_all_sizes(rep, f, facts, "zero")
-    rep.check("CONST.zero", zeros_of(res, shapes=[N]) and not f.params, fwhere(f), "zero() returns zeros(n)", "zero() returns %s" % fmt(res))
+    rep.check("CONST.zero", zeros_of(res, shapes=[N]) and all(p_ in f.defaults for p_ in f.params), fwhere(f), "zero() returns zeros(n)", "zero() returns %s" % fmt(res))
     fn = need(prog, "sempler.functions.null")
     Sn = Sym(prog)
     sn, _ = run_function(Sn, fn)
